@@ -1,6 +1,6 @@
 (** Pins for C13: the statements written out, so that no theorem is weakened quietly. *)
 From TucModel Require Import Base.Bytes Model.Bounds Model.CutBytes Model.Scan Model.Opt Model.CutStr
-     Model.FastLane Model.CutLines Model.Stream Spec.Resolve Proofs.BoundsFacts Proofs.C06 Proofs.C13 Properties.C13.
+     Model.FastLane Model.CutLines Model.Stream Spec.Resolve Proofs.BoundsFacts Proofs.C06 Proofs.C13 Proofs.C01More Proofs.C13More Properties.C13.
 Local Open Scope Z_scope.
 
 Check C13_unresolvable_iff :
@@ -112,3 +112,15 @@ Check C13_complement_keeps_unresolvable :
   forall (l : list bof) (n : nat) (b : ubound),
     In (Bound b) l -> bound_nz b -> ~ resolves b n -> In (Bound b) (complement_items l n).
 Print Assumptions C13_complement_keeps_unresolvable.
+
+Check C13_whole_record_is_never_silent :
+  forall (o : opt) (line0 out : bytes),
+    o_regex o = None -> o_btype o = BFields -> o_json o = false ->
+    Forall item_nz (items (o_bounds o)) ->
+    cut_str o line0 = Some (ROk out) ->
+    let line1 := match o_trim o with Some k => trim_lit k (o_delim o) line0 | None => line0 end in
+    let fields := snd (lit_stage o line1) in
+    line1 <> [] -> (o_only_delimited o && Nat.eqb (length fields) 1) = false ->
+    forall b, In (Bound b) (items (o_bounds o)) -> ~ resolves b (length fields) ->
+              fallback_for b (o_fallback o) <> None.
+Print Assumptions C13_whole_record_is_never_silent.
